@@ -457,8 +457,7 @@ def r9_values_recorded_as_written(ctx, rep):
     if not apps:
         raise AnalysisError("meta_preprocessor: the append of a key line's value was not found")
     for e in apps:
-        extra = [c for c in e.cond_texts() if not re.search(rf"\b{re.escape(mvar)}\b", c) and "lines" not in c and "END_RE" not in c
-                 and "strip() == ''" not in c]
+        extra = [c for c in e.cond_texts() if not ("META_RE" in c or c == mvar) and not c.startswith("not ") and c != "lines"]
         rep.ob("a key line records its value even when it is empty", not extra,
                "appended unconditionally once the line matched" if not extra else
                f"the value of a `key: value` line is only recorded under {extra}: `docmark_alt:` (set to empty) silently keeps the "
